@@ -5,6 +5,8 @@ mod util;
 mod checks;
 mod data;
 mod httpd;
+mod rpkigen;
+mod etree;
 mod prom;
 
 use std::path::{Path, PathBuf};
@@ -38,6 +40,11 @@ fn verif_dir() -> PathBuf {
 fn main() {
     let args: Vec<String> = env::args().skip(1).collect();
     if args.is_empty() { usage() }
+    if args[0] == "-h" {
+        // The rsync collector probes its command with -h.
+        println!("rtv (fake rsync mode: --aux fake-rsync CASEDIR ... SRC DST)");
+        return
+    }
     if args[0] == "--list" {
         for c in checks::all() { println!("{}", c.id) }
         return
